@@ -137,7 +137,12 @@ class Refs(object):
             if not prog['exact']:
                 return out
             data = numpy.array(step['x'], dtype=float)
-            want = exact.jacobian_along_curve(prog, data)
+            try:
+                want = exact.jacobian_along_curve(prog, data)
+            except Exception as e:
+                # the exact model cannot run this program (counted, never silent)
+                self.count('note:exact_model_error:%s' % type(e).__name__)
+                return out
             a = numpy.ascontiguousarray(want)
             out['exact'] = {'k': 'utpm', 'sh': list(a.shape), 'dt': a.dtype.str, 'hx': a.tobytes().hex()}
             return out
@@ -150,8 +155,11 @@ class Refs(object):
         except Exception as e:
             self.notes.append('forward truth raised: %s' % type(e).__name__)
         if prog['exact']:
-            _, J, H = exact.point_derivatives(prog, x)
-            models['exact'] = (J, H)
+            try:
+                _, J, H = exact.point_derivatives(prog, x)
+                models['exact'] = (J, H)
+            except Exception as e:
+                self.count('note:exact_model_error:%s' % type(e).__name__)
         v = numpy.array(step['v'], dtype=float) if step.get('v') is not None else None
         w = numpy.array(step['w'], dtype=float) if step.get('w') is not None else None
         for key, (J, H) in models.items():
